@@ -293,6 +293,7 @@ def _hook_tail(chk, ix, R, terms):
     run_field_coverage(chk, ix, R, terms)
     run_fixup(chk, ix)
     run_typeinfo_fixup_fields(chk, ix)
+    run_optional_json_keys(chk, ix)
     run_special_alias_rebuild(chk, ix)
     run_json_representable(chk, ix)
     run_definition_after_load(chk, ix)
@@ -1033,3 +1034,44 @@ def run_typeinfo_fixup_fields(chk: Check, ix) -> None:
             r.ok(key, vti.loc(), how)
         else:
             r.violation(key, vti.loc(), f"TypeInfo.{fld} is re-created by the loader ({how}) but never handed to self.type_fixer: the Instances inside keep an unresolved TypeInfo after a cache load (e.g. the upper bound of the implicit Self type variable: the reloaded self_type no longer equals the Self variables in the member types, and `Access to generic instance variables via class is ambiguous` is reported cold but not warm)")
+
+
+def run_optional_json_keys(chk: Check, ix) -> None:
+    """R11.18: a JSON key that is written only sometimes is absent exactly when the attribute has the reader's default."""
+    from ..cfg import branch_conditions
+    r18 = chk.rule("R11.18", "JSON serializers leave out a key when the attribute has its default (`if self.module_hidden: data['module_hidden'] = True`) and the reader assigns the attribute only when the key is present (`if 'module_hidden' in data: ...`), so an absent key means 'default'. That holds only if the condition under which the key is written (enclosing `if`s, including the negated tests of earlier `elif` arms) is a test of that attribute alone: a key whose writing also depends on another attribute is absent for some non-default values, which reload as the default (binary format unaffected, so the formats disagree)", floor=4)
+    n = 0
+    for mn in ("mypy.nodes", "mypy.types"):
+        m = ix.module(mn)
+        for c in m.classes.values():
+            ser, de = c.methods.get("serialize"), c.methods.get("deserialize")
+            if ser is None or de is None:
+                continue
+            # optional keys on the reading side: if "k" in data: <obj>.X = data["k"]
+            optional: dict[str, str] = {}
+            for i in ast.walk(de.node):
+                if isinstance(i, ast.If) and isinstance(i.test, ast.Compare) and len(i.test.ops) == 1 and isinstance(i.test.ops[0], ast.In) and isinstance(i.test.left, ast.Constant) and isinstance(i.test.left.value, str) and not i.orelse:
+                    k = i.test.left.value
+                    for a in i.body:
+                        if isinstance(a, ast.Assign) and isinstance(a.targets[0], ast.Attribute) and isinstance(a.value, ast.Subscript) and isinstance(a.value.slice, ast.Constant) and a.value.slice.value == k:
+                            optional[k] = a.targets[0].attr
+            if not optional:
+                continue
+            par = ser.module.parents()
+            for a in ast.walk(ser.node):
+                if not (isinstance(a, ast.Assign) and isinstance(a.targets[0], ast.Subscript) and isinstance(a.targets[0].slice, ast.Constant) and a.targets[0].slice.value in optional):
+                    continue
+                k = a.targets[0].slice.value
+                pos, neg = branch_conditions(par, ser.node, a)
+                if not pos and not neg:
+                    continue
+                n += 1
+                attrs = {x.attr for t in pos + neg for x in ast.walk(t) if isinstance(x, ast.Attribute) and isinstance(x.value, ast.Name) and x.value.id == "self"}
+                key = f"{c.name}.serialize: the key '{k}' is left out only for the default of `{optional[k]}`"
+                others = attrs - {optional[k]}
+                if not others:
+                    r18.ok(key, ser.loc(a))
+                else:
+                    r18.violation(key, ser.loc(a), f"whether '{k}' is written also depends on {sorted(others)} ({[norm(t)[:50] for t in pos + neg]}): for a value of `{optional[k]}` that differs from the reader's default the key can be absent, and {c.name}.deserialize then leaves the default in place (a hidden, non-public symbol reloads as public: `from m import *` leaks m's private imports on a warm run)")
+    if n < 4:
+        raise AnalysisError(f"only {n} conditionally written optional JSON keys found in nodes.py / types.py")
